@@ -8,12 +8,14 @@
     ([C08_batch_exchange]); the abstract state is the one reached by applying the
     single-entity update to those entities one by one in any order ([C08_equals_singles]).
     The building block is [C08_move_all]: moving a whole table is the single move of each of
-    its rows.  Batch.SetRelation, RemoveEntities, batch creation, the Q variants and cached
-    filters as arguments: correspondence run against the model (whose batch paths share
-    [move_all] / [copy_cells] with the proved ones). *)
+    its rows.  The same for Batch.SetRelation / Relations.SetBatch ([C08_batch_set_relation]:
+    every matching entity gets the new target, mask / relation / values stay; entities whose
+    table already has the target are counted but not moved).  RemoveEntities, batch
+    creation, the Q variants and cached filters as arguments: correspondence run against the
+    model (whose batch paths share [move_all] / [copy_cells] with the proved ones). *)
 From Arche Require Import Model.Base Model.Filter Model.World Model.Ops Proofs.Misc Proofs.StepFrame
   Proofs.Store Proofs.WorldInv Proofs.RelGraph Proofs.RelWorld Proofs.RelRefine Proofs.QueryExact Proofs.CacheInv
-  Proofs.BatchMove Proofs.BatchExchange.
+  Proofs.BatchMove Proofs.BatchExchange Proofs.BatchSetRel.
 
 Theorem C08_count : forall w a add rem rel w' n evs,
   op_batch_exchange w a add rem rel = (w', Ok (VNat n), evs) -> (add <> [] \/ rem <> []) ->
@@ -64,6 +66,15 @@ Example C08_nonvacuous :
   table_ents w (get_tables w (FAll 1)) = [mkE 1 0; mkE 2 0; mkE 3 0].
 Proof. exact demo_batch. Qed.
 
+Theorem C08_batch_set_relation : forall w A f rid T w' n evs,
+  R w A -> cache_ok w ->
+  op_batch_set_relation w (FPlain f) rid T = (w', Ok (VNat n), evs) ->
+  let L := table_ents w (get_tables w f) in
+  n = length L /\ NoDup L /\ (forall e, e ∈ L <-> (e ∈ as_live A /\ ent_matches w f e)) /\
+  R w' (a_map A L (fun a => mkA (a_mask a) T (a_vals a))) /\ cache_ok w'.
+Proof. exact batch_set_relation_refines. Qed.
+
 Print Assumptions C08_count.
+Print Assumptions C08_batch_set_relation.
 Print Assumptions C08_batch_exchange.
 Print Assumptions C08_equals_singles.
